@@ -173,6 +173,7 @@ pub fn marker(m: u8, tail: &str) -> String {
 /// kinds: arr (nested strict arrays), obj (nested objects), ecma, mix, count (huge count, no
 /// elements), strlen (declared 65535, 3 bytes present), nulls (many tiny values), props (many props)
 pub fn adversarial(kind: &str, n: usize, stack_kb: usize) -> String {
+    let kind_s = kind.to_string(); let kind = kind_s.as_str();
     let mut bs: Vec<u8> = vec![];
     match kind {
         "arr" => { for _ in 0..n { bs.extend_from_slice(&[10, 0, 0, 0, 1]); } }
@@ -180,6 +181,11 @@ pub fn adversarial(kind: &str, n: usize, stack_kb: usize) -> String {
         "ecma" => { for _ in 0..n { bs.extend_from_slice(&[8, 0xff, 0xff, 0xff, 0xff, 0, 1, b'a']); } }
         "mix" => { for i in 0..n { match i % 3 { 0 => bs.extend_from_slice(&[10, 0, 0, 0, 2]), 1 => bs.extend_from_slice(&[3, 0, 1, b'a']), _ => bs.extend_from_slice(&[8, 0, 0, 0, 0, 0, 2, b'b', b'c']) } } }
         "count" => { for _ in 0..n { bs.extend_from_slice(&[10, 0xff, 0xff, 0xff, 0xff]); } }
+        // an ECMA array opened below n objects, n-1 strict arrays resp., then 100000 more levels: whatever sits at the
+        // limit, the input nests deeper than 128 and must be refused
+        "edge_obj" => { for _ in 0..n { bs.extend_from_slice(&[3, 0, 1, b'a']); } bs.extend_from_slice(&[8, 0, 0, 0, 0, 0, 1, b'a']); for _ in 0..100_000 { bs.extend_from_slice(&[10, 0, 0, 0, 1]); } }
+        "edge_arr" => { for _ in 0..n { bs.extend_from_slice(&[10, 0, 0, 0, 1]); } bs.extend_from_slice(&[8, 0, 0, 0, 0, 0, 1, b'a']); for _ in 0..100_000 { bs.extend_from_slice(&[3, 0, 1, b'a']); } }
+        "edge_ecma" => { for _ in 0..n { bs.extend_from_slice(&[8, 0, 0, 0, 0, 0, 1, b'a']); } bs.extend_from_slice(&[10, 0, 0, 0, 1]); bs.extend_from_slice(&[8, 0, 0, 0, 0, 0, 1, b'a']); for _ in 0..100_000 { bs.extend_from_slice(&[10, 0, 0, 0, 1]); } }
         "strlen" => { bs.extend_from_slice(&[2, 0xff, 0xff, b'a', b'b', b'c']); for _ in 0..n { bs.push(b'x'); } }
         "nulls" => { for _ in 0..n { bs.push(5); } }
         "props" => { bs.push(3); for i in 0..n { bs.extend_from_slice(&[0, 3, b'a' + (i % 26) as u8, b'a' + ((i / 26) % 26) as u8, b'a' + ((i / 676) % 26) as u8, 5]); } bs.extend_from_slice(&[0, 0, 9]); }
@@ -206,6 +212,8 @@ pub fn adversarial(kind: &str, n: usize, stack_kb: usize) -> String {
             // every constructed node is at most 3*size_of(Amf0Value) live during Vec growth; one
             // u16-declared string buffer may be allocated before its bytes are read
             let bound = 4 * std::mem::size_of::<Amf0Value>() * len + 2 * 65536 + 4096;
+            let must_refuse = kind.starts_with("edge_") || (["arr", "obj", "ecma", "mix"].contains(&kind) && n > 128);
+            if must_refuse && desc != "err:deep" { return format!("! FAIL input-nested-deeper-than-the-limit-was-not-refused-as-too-deep got={} len={}", desc, len); }
             if peak > bound { format!("! FAIL allocation-exceeds-bound peak={} bound={} len={}", peak, bound, len) }
             else if ms > 60_000 { format!("! FAIL too-slow {}ms", ms) }
             else { format!("! ok {} len={} peak={}", desc, len, peak) }
